@@ -228,7 +228,7 @@ Proof.
       assert (E2 : (lenN p =? 0) = false) by (apply N.eqb_neq; lia).
       rewrite E1, E2. eexists _, _. split; [reflexivity|].
       split; [reflexivity|]. right. exists p, ps'. cbn [pr_hdr pr_size pr_data].
-      rewrite app_nil_r. repeat split; try assumption; try reflexivity. change (lenN (@nil byte)) with 0. lia.
+      rewrite app_nil_r. repeat split; try assumption; try reflexivity; change (lenN (@nil byte)) with 0; lia.
     - apply N.eqb_neq in Hfull. eexists _, _. split; [reflexivity|].
       split; [reflexivity|]. left. cbn [pr_hdr pr_size pr_data].
       assert (Hlen : lenN (pr_hdr st ++ takeN n stream) <= SZW).
